@@ -37,6 +37,8 @@ struct Fn
 			return std::pow(x, (double) ip) - c;
 		if(kind == "sat")	// (x-s)/(1+|x-s|) - c
 			return (x - s) / (1.0 + std::fabs(x - s)) - c;
+		if(kind == "rbump")	  // c * (x-s) * (1+x^2)^-p
+			return c * (x - s) * std::pow(1.0 / (1.0 + x * x), (double) ip);
 		if(kind == "plat")	 // 1/(1+x^2)^k - d : tiny same-sign plateaus far from the root
 			return std::pow(1.0 / (1.0 + x * x), (double) ip) - c;
 		if(kind == "scale")	  // c * inner(x): the value scale of the function (down to subnormal, up to 1e300)
@@ -60,6 +62,8 @@ struct Fn
 			return std::exp(w * (x - s)) - c;
 		if(kind == "logx")	 // log(x/s)*w - c
 			return w * std::log(x / s) - c;
+		if(kind == "gbump")	  // c * (x-s) * exp(-w*x^2): sign change at s, tails hundreds of decades below the interior
+			return c * (x - s) * std::exp(-w * x * x);
 		if(kind == "gauss")	  // exp(-w*(x-s)^2) - c
 			return std::exp(-w * (x - s) * (x - s)) - c;
 		if(kind == "dexp")	 // exp(-t) - c*exp(-|w|*t), t = x-s (w>0) or s-x (w<0): steep crossing next to s, slow decay
@@ -87,6 +91,12 @@ static Fn parse_fn(Args& a)
 	else if(f.kind == "powc" || f.kind == "plat")
 	{
 		f.ip = a.i64();
+		f.c	 = a.dbl();
+	}
+	else if(f.kind == "rbump")
+	{
+		f.ip = a.i64();
+		f.s	 = a.dbl();
 		f.c	 = a.dbl();
 	}
 	else if(f.kind == "sat")
@@ -120,6 +130,16 @@ static Fn parse_fn(Args& a)
 	return f;
 }
 
+// number of evaluations so far, reported on the diagnostic stream when the library terminates the process
+// (on a private scratch file, NOT on the diagnostic stream: an exit without diagnostic must stay recognisable)
+static long g_evals = 0;
+static int g_count_fd = -1;
+static void report_evals_at_exit()
+{
+	if(g_count_fd >= 0)
+		dprintf(g_count_fd, "%ld", g_evals);
+}
+
 static std::string do_root(Args& a)
 {
 	Fn fn	   = parse_fn(a);
@@ -127,10 +147,14 @@ static std::string do_root(Args& a)
 	double xr  = a.dbl();
 	double acc = a.dbl();
 	a.end();
-	return run_forked([&](Out& o) {
+	g_count_fd		= tmpfd();
+	std::string res = run_forked([&](Out& o) {
 		std::vector<double> xs;
 		std::vector<double> fs;	  // the values the library saw (the "double function")
+		g_evals = 0;
+		std::atexit(report_evals_at_exit);	 // (child process only) std::exit of the library runs it
 		auto cb = [&](double x) {
+			g_evals++;
 			xs.push_back(x);
 			double v = fn(x);
 			fs.push_back(v);
@@ -147,6 +171,15 @@ static std::string do_root(Args& a)
 		o.list(xs);
 		o.list(fs);
 	});
+	if(g_count_fd >= 0)
+	{
+		std::string cnt = slurp_fd(g_count_fd);
+		close(g_count_fd);
+		g_count_fd = -1;
+		if(res == "err" && !cnt.empty())   // how many evaluations preceded the diagnostic exit
+			res += " evals " + std::to_string(atol(cnt.c_str()));
+	}
+	return res;
 }
 
 std::string handle(const std::string& op, Args& a)
